@@ -85,8 +85,8 @@ Variable act : Z -> F -> res F.
 Variable mact : Z -> list F -> res (list F).
 
 (* identical outputs: the restored solver, fresh from ReadFMNSModel, run through ANY sequence of operations, gives at
-   every operation the result and the ReadOutputs() of the original solver run from its initial state, and (when
-   Flush is a reset for this solver, ModSpecFast.flush_ok) of the original solver flushed after any history *)
+   every operation the result and the ReadOutputs() of the original solver run from its initial state, and of the
+   original solver flushed after any history (C13, ModSpecFast) *)
 Theorem mfmns_outputs_equal (n : mnet F) (fx : fmnet F) id name :
   fast_of_net_mod NF n = Ok fx ->
   Forall (registered name_of) (f_acts (fx_net fx)) ->
@@ -97,8 +97,7 @@ Theorem mfmns_outputs_equal (n : mnet F) (fx : fmnet F) id name :
     (forall ops : list (op F),
        mfast_trace NF act mact (fmnet_of s') (mfast_init NF (fmnet_of s')) ops =
        mfast_trace NF act mact fx (mfast_init NF fx) ops) /\
-    (flush_ok F fx = true ->
-     forall h ops : list (op F),
+    (forall h ops : list (op F),
        mfast_trace NF act mact (fmnet_of s') (mfast_init NF (fmnet_of s')) ops =
        mfast_trace NF act mact fx (fst (fast_flush NF (fx_net fx) (mfast_run NF act mact fx (mfast_init NF fx) h))) ops).
 Proof.
@@ -108,8 +107,8 @@ Proof.
     as (d & Hd & s' & Hr & Hs & Hfx & _).
   exists d, s'. split; [exact Hd|]. split; [exact Hr|]. split; [rewrite Hs; reflexivity|].
   rewrite Hfx. split; [reflexivity|].
-  intros HF h ops. symmetry.
-  exact (mfast_flush_fresh F NF act mact fx (fast_of_net_sensor_le F NF _ _ Hfn) HF h ops).
+  intros h ops. symmetry.
+  exact (mfast_flush_fresh F NF act mact fx (fast_of_net_sensor_le F NF _ _ Hfn) h ops).
 Qed.
 End Roundtrip.
 
